@@ -732,10 +732,11 @@ def native_replay(c, vals, wd):
             return "error", "replay link failed: " + p.stdout[-2000:]
         env = dict(os.environ, ASAN_OPTIONS="detect_leaks=0:abort_on_error=0:exitcode=1", UBSAN_OPTIONS="halt_on_error=1:exitcode=1:print_stacktrace=0")
         p = sh([exe], check=False, timeout=120, env=env)
-        out = p.stdout[-3000:]
-        if "ERROR: AddressSanitizer" in out and re.search(r"#0 0x[0-9a-f]+ in main [^\n]*replay\.c", out):
+        full = p.stdout
+        out = full if len(full) <= 4000 else full[:2500] + "\n...\n" + full[-1200:]
+        if "ERROR: AddressSanitizer" in full and re.search(r"#0 0x[0-9a-f]+ in main [^\n]*replay\.c", full):
             return "error", "the specification itself reads outside the buffer on this input (contract bug, not a verdict):\n" + out[:1500]
-        if "REPLAY-FAIL" in out or "ERROR: AddressSanitizer" in out or "runtime error:" in out:
+        if "REPLAY-FAIL" in full or "ERROR: AddressSanitizer" in full or "runtime error:" in full:
             return "reproduced", out
         return "not-reproduced", out
     except ToolError as e:
